@@ -52,7 +52,9 @@ class A2(A):
 class B(State):
     """a state type whose instances are FALSY (user types may define __bool__ / __len__): supplied is supplied"""
 
-    v: int
+    # required, and a union: default construction fails with whatever the union validator raises (an ExceptionGroup,
+    # not a TypeError) - "needs arguments" is a missing-state error whichever way the failure shows
+    v: int | None
 
     def __bool__(self) -> bool:
         return False
@@ -155,7 +157,10 @@ class Disp:
             return None
         if (self.shape in ("single", "auto")) and len(states) == 1:
             return states[0]
-        return states
+        # several states come as ANY iterable: a list, a one-shot generator or a one-shot iterator over a tuple (which of
+        # them is a fixed function of the double's configuration, so that a replay reproduces it)
+        k = (len(self.enter) + len(self.exit) + sum(map(ord, self.name))) % 3
+        return states if k == 0 else (s for s in states) if k == 1 else iter(tuple(states))
 
     async def __aexit__(self, et, ev, tb):
         self.n_exit += 1
